@@ -1407,6 +1407,234 @@ def token_collisions(rep):
     return templates, guards
 
 
+def catalogue_roundtrip(rep):
+    """iterations.txt parses back to the structure that was returned in memory: the parser of
+    read_iterations() is interpreted abstractly (roundtrip.py) on every line template the
+    writer in iterations() emits, and what it stores is compared, key by key and field by
+    field, with what the writer stored in the in-memory catalogue next to that line."""
+    from . import roundtrip as RT
+    it_fn = fnode(rep, "iterations")
+    rd_fn = fnode(rep, "read_iterations")
+    base = f"{RD}::iterations~read_iterations"
+    # ---- parser: the guard chain
+    chain, linevar = None, None
+    for n in ast.walk(rd_fn):
+        if isinstance(n, ast.For) and isinstance(n.target, ast.Name) \
+                and any(isinstance(st, ast.If) for st in n.body):
+            for st in n.body:
+                if isinstance(st, ast.If) and isinstance(st.test, ast.Compare) \
+                        and isinstance(st.test.ops[0], ast.In) \
+                        and unparse(st.test.comparators[0]) == n.target.id:
+                    chain, linevar = st, n.target.id
+    if chain is None:
+        raise AnalysisError("read_iterations: guard chain not found")
+    branches = []
+    node = chain
+    while isinstance(node, ast.If):
+        t = node.test
+        if not (isinstance(t, ast.Compare) and isinstance(t.left, ast.Constant)):
+            raise AnalysisError("read_iterations: guard not a substring test")
+        branches.append((t.left.value, node.body))
+        node = node.orelse[0] if len(node.orelse) == 1 and isinstance(node.orelse[0],
+                                                                      ast.If) else None
+    # ---- writer: line templates with the store next to them
+    def hole_kind(e):
+        if isinstance(e, ast.Call) and unparse(e.func) == "list":
+            return "intlist"
+        if isinstance(e, ast.Call) and unparse(e.func) == "str" and e.args:
+            return "strlist"
+        if isinstance(e, ast.Name):
+            defs = [a for a in assignments_to(it_fn, e.id) if isinstance(a, ast.Assign)]
+            if defs and all(unparse(a.value).startswith("np.sort(") for a in defs):
+                return "array"
+        return "num"
+
+    def instances(expr, choice):
+        """abstract lines for a writer expression; choice: multi-def name -> chosen value"""
+        outs = [([], {})]
+
+        def extend(items, lists=None):
+            for o in outs:
+                o[0].extend(items)
+                if lists:
+                    o[1].update(lists)
+
+        def add(n):
+            nonlocal outs
+            if isinstance(n, ast.Constant) and isinstance(n.value, str):
+                extend(RT.lit(n.value))
+            elif isinstance(n, ast.JoinedStr):
+                for v in n.values:
+                    if isinstance(v, ast.Constant):
+                        extend(RT.lit(v.value))
+                    else:
+                        addhole(v.value)
+            elif isinstance(n, ast.BinOp) and isinstance(n.op, ast.Add):
+                add(n.left)
+                add(n.right)
+            elif isinstance(n, ast.Name) and n.id in choice:
+                add(choice[n.id])
+            elif isinstance(n, ast.Name) and n.id in single_defs(it_fn) and isinstance(
+                    single_defs(it_fn)[n.id], (ast.JoinedStr, ast.BinOp, ast.Constant)):
+                add(single_defs(it_fn)[n.id])
+            else:
+                addhole(n)
+
+        def addhole(e):
+            nonlocal outs
+            kind = hole_kind(e)
+            src = e.args[0] if kind in ("intlist", "strlist") and e.args else e
+            name = unparse(src)
+            if kind == "num":
+                extend([("h", rtext(it_fn, e))])
+            elif kind == "strlist":
+                extend(RT.lit("['") + [("h", name + "[0]")] + RT.lit("', '")
+                       + [("h", name + "[1]")] + RT.lit("']"), {name: 2})
+            elif kind == "array":
+                extend(RT.lit("[") + [("h", name + "[0]")] + RT.lit("]"), {name: 1})
+            else:
+                new = []
+                for o in outs:
+                    new.append((o[0] + RT.lit("[]"), dict(o[1], **{name: 0})))
+                    new.append((o[0] + RT.lit("[") + [("h", name + "[0]")] + RT.lit(", ")
+                                + [("h", name + "[1]")] + RT.lit("]"), dict(o[1], **{name: 2})))
+                outs = new
+        add(expr)
+        return outs
+
+    def block_of(st):
+        par = getattr(st, "_parent", None)
+        for field in ("body", "orelse"):
+            b = getattr(par, field, None)
+            if isinstance(b, list) and st in b:
+                return b
+        return None
+
+    def store_near(call):
+        """the in-memory store its_available[...] = ... that belongs to this line: in the same
+        block, or (for a line assembled from branch-dependent pieces) in the preceding if/else"""
+        st = parent_stmt(call)
+        blk = block_of(st) or []
+        cands = []
+        for x in blk:
+            if isinstance(x, ast.Assign) and unparse(x.targets[0]).startswith("its_available["):
+                cands.append((abs(x.lineno - st.lineno), x, {}))
+        return cands
+
+    n_lines = 0
+    for call in walk_calls(it_fn, "saveprint"):
+        expr = call.args[1]
+        st = parent_stmt(call)
+        blk = block_of(st) or []
+        # names with several definitions in a preceding if/else of the same block
+        variants = [({}, None)]
+        multi = [x.id for x in ast.walk(expr) if isinstance(x, ast.Name)
+                 and x.id not in single_defs(it_fn)
+                 and len([a for a in assignments_to(it_fn, x.id)
+                          if isinstance(a, ast.Assign)]) > 1]
+        prev = [x for x in blk[:blk.index(st)] if isinstance(x, ast.If) and any(
+            isinstance(a, ast.Assign) and isinstance(a.targets[0], ast.Name)
+            and a.targets[0].id in multi for a in ast.walk(x))] if multi and st in blk else []
+        if prev:
+            variants = []
+            iff = prev[-1]
+            for br in (iff.body, iff.orelse):
+                ch, mem = {}, None
+                for x in br:
+                    if isinstance(x, ast.Assign) and isinstance(x.targets[0], ast.Name) \
+                            and x.targets[0].id in multi:
+                        ch[x.targets[0].id] = x.value
+                    if isinstance(x, ast.Assign) and unparse(x.targets[0]).startswith(
+                            "its_available["):
+                        mem = x
+                variants.append((ch, mem))
+        for choice, mem in variants:
+            if mem is None and st in blk:
+                i = blk.index(st)
+                for j in (i - 1, i + 1):
+                    if 0 <= j < len(blk) and isinstance(blk[j], ast.Assign) \
+                            and unparse(blk[j].targets[0]).startswith("its_available[") \
+                            and mem is None:
+                        mem = blk[j]
+            for line, lists in instances(expr, choice):
+                text = RT.show(line)
+                # which parser branch takes this line
+                taken = None
+                for tok, body in branches:
+                    if RT.find(line, tok) >= 0:
+                        taken = (tok, body)
+                        break
+                key = f"{base}::line({text[:40]!r})"
+                if taken is None:
+                    # informational line: nothing may be stored for it in memory either
+                    rep.check(mem is None or not text.startswith((" ===", "it =", "rl =")),
+                              "catalogue-roundtrip", key,
+                              "the writer stores a catalogue entry next to a line no parser "
+                              "branch reads", node=call)
+                    continue
+                n_lines += 1
+                P_ = RT.Parser(line, linevar)
+                # values carried over from earlier lines (the restart number of the header)
+                for _tok, body in branches:
+                    if body is taken[1]:
+                        continue
+                    for x in body:
+                        if isinstance(x, ast.Assign) and isinstance(x.targets[0], ast.Name):
+                            P_.env.setdefault(x.targets[0].id, ("field", "$" + x.targets[0].id))
+                try:
+                    P_.run(taken[1])
+                except RT.NotParsed as e:
+                    rep.violation("catalogue-roundtrip", key,
+                                  f"the parser branch for {taken[0]!r} cannot take the line "
+                                  f"`{text}` apart: {e}", node=call)
+                    continue
+                stores = [s_ for s_ in P_.stores if s_[0] == "its_available"]
+                if mem is None:
+                    raise AnalysisError(f"iterations(): no in-memory store next to `{text}`")
+                # writer side: key path (after the restart) and value
+                wt = mem.targets[0]
+                wkeys = []
+                while isinstance(wt, ast.Subscript):
+                    wkeys.insert(0, wt.slice)
+                    wt = wt.value
+                wkey = wkeys[1] if len(wkeys) > 1 else None
+                wkey_txt = None
+                if wkey is not None:
+                    inst = instances(wkey, choice)
+                    wkey_txt = RT.show(inst[0][0]) if inst else None
+                wv = mem.value
+                if isinstance(wv, ast.List):
+                    wvals = [rtext(it_fn, e) for e in wv.elts]
+                elif isinstance(wv, ast.Dict) and not wv.keys:
+                    wvals = []
+                else:
+                    nm = rtext(it_fn, wv)
+                    nm0 = unparse(wv)
+                    k = lists.get(nm0, lists.get(nm))
+                    if k is None:
+                        raise AnalysisError(f"iterations(): stored value `{nm0}` of the line "
+                                            f"`{text}` not understood")
+                    wvals = [f"{nm0}[{i}]" for i in range(k)]
+                if len(stores) != 1:
+                    rep.violation("catalogue-roundtrip", key,
+                                  f"the parser stores {len(stores)} entries for the line "
+                                  f"`{text}`, the writer one", node=call)
+                    continue
+                _b, pkeys, pval = stores[0]
+                # restart key: the header's number
+                pkey_txt = RT.show(pkeys[1][1]) if len(pkeys) > 1 and pkeys[1][0] == "str" \
+                    else None
+                ok_key = (wkey_txt == pkey_txt)
+                pv = RT.flat(pval) if pval[0] != "const" else []
+                ok_val = pv == wvals
+                rep.check(ok_key and ok_val, "catalogue-roundtrip", key,
+                          f"line `{text}`: the writer keeps {wvals} under {wkey_txt!r}, the "
+                          f"parser reads back {pv} under {pkey_txt!r}", node=call,
+                          detail={"line": text, "fields": pv})
+    if n_lines < 6:
+        raise AnalysisError(f"catalogue round trip: only {n_lines} parsed line templates")
+
+
 def regex_users(rep):
     import re._parser as rp
     S = rep.sources
